@@ -27,8 +27,10 @@ def flatten(tree, prefix, wol, irv):
     if len(tree) == 1:
         node = tree[0]
         path = prefix + [node.cand]
-        neb = [{"kind": "NEB", "w": wol[k][1], "l": wol[k][0], "elim": []} for k, _ in node.NEBTagList]
-        ir = [{"kind": "NEN", "w": irv[k][0], "l": irv[k][0], "elim": sorted(irv[k][1])} for k, _ in node.IRVTagList]
+        # a tag is (number of the assertion in its list, whether it has been confirmed)
+        neb = [{"kind": "NEB", "w": wol[k][1], "l": wol[k][0], "elim": [], "proved": bool(f)} for k, f in node.NEBTagList]
+        ir = [{"kind": "NEN", "w": irv[k][0], "l": irv[k][0], "elim": sorted(irv[k][1]), "proved": bool(f)}
+              for k, f in node.IRVTagList]
         return [{"path": path, "pruned": bool(neb or ir), "neb": neb, "irv": ir}]
     out = []
     for br in tree[1]:
@@ -52,8 +54,11 @@ def run_case(tid, cands, alt, atoms, rng):
         cands = [ren[c] for c in cands]
         alt = ren[alt]
         atoms = [dict(a, w=ren[a["w"]], l=ren[a["l"]], elim=sorted(ren[e] for e in a["elim"])) for a in atoms]
-    rec = {"tid": tid, "cands": cands, "alt": alt, "atoms": atoms}
+    if atoms and rng.random() < 0.25:
+        atoms = atoms + [dict(rng.choice(atoms))]      # a redundant set may list an assertion twice (confirmed or not)
     proved = [rng.random() < 0.5 for _ in atoms]
+    atoms = [dict(a, proved=p) for a, p in zip(atoms, proved)]
+    rec = {"tid": tid, "cands": cands, "alt": alt, "atoms": atoms}
     wol = [(a["l"], a["w"], p) for a, p in zip(atoms, proved) if a["kind"] == "NEB"]
     irv = [(a["w"], set(a["elim"]), p) for a, p in zip(atoms, proved) if a["kind"] == "NEN"]
     try:
